@@ -219,6 +219,13 @@ def enc_history_ops(rng, npk_defs, n_ops, allow_ids=True):
             ops.append("enc e stream %d" % rng.choice([0, 255, rng.getrandbits(8)]))
         elif allow_ids and r < 0.32:
             ops.append("enc e restart")
+        elif r < 0.42 and not allow_ids:
+            # (C10 only: C09 quantifies over completed encode calls) an encode call that is left by an exception of the caller's
+            # iterator after k packets
+            mx = rng.choice([25, 40, 64, 100, 200, 1500])
+            n = rng.randrange(1, 5)
+            ids = " ".join("p%d" % rng.randrange(npk_defs) for _ in range(n))
+            ops.append("enc e encodethrow %d %d %d %s" % (rng.choice([0, mx]), mx, rng.randrange(0, n), ids))
         else:
             mx = rng.choice([25, 40, 64, 100, 200, 1500])
             mn = rng.choice([0, 0, mx // 2, mx])
